@@ -278,6 +278,78 @@ impl PagedWriter {
         Ok(())
     }
 
+    /// Seek to a specific physical offset in the file.
+    pub fn physical_seek(&mut self, pos: u64) -> (r: EResult<()>)
+        requires old(self).wf(), old(self).dl() + 4096 < u64::MAX,
+        ensures match r {
+            Ok(_) => final(self).wf() && pos <= 1024 * old(self).npages() && pos % 1024 < 1020
+                && final(self).stream() =~= old(self).stream()
+                && final(self).cursor() == 1020 * (pos as int / 1024) + pos as int % 1024,
+            Err(_) => true },
+    {
+        // Make sure we wrote any current (partial) page before seeking
+        self.flush().write_err("Failed to flush before seeking")?;
+        let ghost fl = *self;
+
+        let end = self
+            .writer
+            .seek(SeekFrom::End(0))
+            .write_err("Failed to seek to file end")?;
+        if pos > end {
+            Error::invalid("Cannot seek after end of file")?
+        }
+
+        let page = pos / PAGE_SIZE;
+        let offset = (pos % PAGE_SIZE) as usize;
+        if offset >= PAGE_PAYLOAD_SIZE {
+            Error::invalid("Cannot seek into checksum")?
+        }
+
+        let page_phys_offset = page * PAGE_SIZE;
+        self.writer
+            .seek(SeekFrom::Start(page_phys_offset))
+            .write_err("Failed to seek to specified position")?;
+        self.read_current_page()
+            .write_err("Failed to read existing page data")?;
+        self.writer
+            .seek(SeekFrom::Start(page_phys_offset))
+            .write_err("Failed to seek back to page start after reading existing data")?;
+
+        self.offset = offset;
+        proof {
+            let d = self.writer.data@;
+            assert(d == fl.writer.data@);
+            assert forall|i: int| 0 <= i < self.stream().len() implies self.stream()[i] == old(self).stream()[i] by {
+                if i / 1020 == self.p() { assert(self.page_buffer@[i % 1020] == d[1024 * (i / 1020) + i % 1020]); }
+            }
+        }
+
+        Ok(())
+    }
+
+    // Get the current physical size of the file.
+    pub fn physical_size(&mut self) -> (r: EResult<u64>)
+        requires old(self).wf(), old(self).dl() + 4096 < u64::MAX,
+        ensures match r {
+            Ok(sz) => final(self).wf() && final(self).stream() =~= old(self).stream() && final(self).cursor() == old(self).cursor()
+                && sz == 1024 * old(self).npages() && sz == final(self).dl(),
+            Err(_) => true },
+    {
+        self.flush().write_err("Cannot flush writer")?;
+        let pos = self
+            .writer
+            .stream_position()
+            .write_err("Cannot get current position")?;
+        let size = self
+            .writer
+            .seek(SeekFrom::End(0))
+            .write_err("Cannot seek to file end")?;
+        self.writer
+            .seek(SeekFrom::Start(pos))
+            .write_err("Cannot seek to previous position")?;
+        Ok(size)
+    }
+
     /// Get the current physical offset in the file.
     pub fn physical_position(&mut self) -> (r: EResult<u64>)
         requires old(self).wf(), old(self).dl() + 2048 < u64::MAX,
